@@ -89,6 +89,10 @@ EXPLANATION += (
     ' Round 11: output rows are numbered from all leaves of the tree (R-COVER/row-per-leaf).'
 )
 
+EXPLANATION += (
+    ' Round 12: the rows chunked are all rows of the file (R-PROV/row-extent).'
+)
+
 RULE_TEXT = (
     "one obligation per key of each producer, per required read, per "
     "merge loop, per statistic, per use of the row index")
